@@ -6,7 +6,7 @@
 (* behaviour of Lifecycle.tla; every invariant of Lifecycle is evaluated at every    *)
 (* step.  Unlogged steps (StopBehaviors, ScenariosStopped) are silent.               *)
 (* Events: <<"begin">> <<"create", o>> <<"start", s, ok>> <<"override", s, o, p, v>>  *)
-(*   <<"stop", s>> <<"val", o, p, v>> <<"destroy", okFlag>> <<"unproxy">> <<"end">>    *)
+(*   <<"write", o, p, v>> <<"stop", s>> <<"val", o, p, v>> <<"destroy", okFlag>> <<"unproxy">> <<"end">>    *)
 (*   <<"idle">>.   Many traces per run: Init picks the trace number.                  *)
 EXTENDS Lifecycle, Json, IOUtils
 
@@ -26,6 +26,7 @@ TBegin == Is("begin") /\ Begin
 TCreate == Is("create") /\ Create(Ev[2])
 TStart == Is("start") /\ StartScenario(Ev[2], Ev[3])
 TOverride == Is("override") /\ Override(Ev[2], Ev[3], Ev[4], Ev[5])
+TWrite == Is("write") /\ SimWrite(Ev[2], Ev[3], Ev[4])
 TStop == Is("stop") /\ running # <<>> /\ Innermost = Ev[2] /\ StopInnermost
 \* a read-back of a tracked property: the model must predict the value the code shows
 TVal == Is("val") /\ cur[<<Ev[2], Ev[3]>>] = Ev[4] /\ UNCHANGED vars
@@ -40,7 +41,7 @@ TEnd == Is("end") /\ EndSimulation
 TIdle == Is("idle") /\ pc = "idle" /\ Quiescent /\ UNCHANGED vars
 Silent == (StopBehaviors \/ ScenariosStopped) /\ UNCHANGED <<tid, l>>
 
-TNext == TBegin \/ TCreate \/ TStart \/ TOverride \/ TStop \/ TVal \/ TDestroy \/ TUnproxy \/ TEnd \/ TIdle \/ Silent
+TNext == TBegin \/ TCreate \/ TStart \/ TOverride \/ TWrite \/ TStop \/ TVal \/ TDestroy \/ TUnproxy \/ TEnd \/ TIdle \/ Silent
 TSpec == TInit /\ [][TNext]_tvars
 
 \* progress report: the furthest position reached in each trace (workers = 1)
